@@ -75,6 +75,17 @@ def eval_program(arg) -> dict:
         for mech, detail in viols:
             out['violations'].append({'mechanism': mech, 'detail': detail, 'case': case,
                                       'files': {'script.txt': script}})
+        # "... and hand back the reply": what the blocked caller gets back from an MTS provides
+        # in-event - reply value, out and inout arguments - is what the dispatcher-side run
+        # produced
+        rviols, rcounts = tracecheck.check_routing(log, meta)
+        out['counts']['replies_handed_back_compared'] = \
+            out['counts'].get('replies_handed_back_compared', 0) + rcounts.get('returns_compared', 0)
+        for mech, detail in rviols:
+            if mech in ('out-values-not-carried-back', 'reply-not-carried-back',
+                        'call-did-not-return') and detail.get('semantics') == 'MTS':
+                out['violations'].append({'mechanism': 'mts-' + mech, 'detail': detail,
+                                          'case': case, 'files': {'script.txt': script}})
     out['counts']['programs'] = 1
     out['counts']['static_asserts_on_accessor_types'] = len(prog.mapping)
     sems = set(prog.mapping.values())
@@ -89,7 +100,7 @@ def main(tier: str) -> int:
     run.require('mts_provides_in', 'mts_requires_out', 'sts_events', 'identity_checks',
                 'gate_tests', 'programs', 'static_asserts_on_accessor_types',
                 'programs_queueing_reference_typed_arguments',
-                'programs_with_several_mts_provides_ports')
+                'programs_with_several_mts_provides_ports', 'replies_handed_back_compared')
     scratch = run.scratch()
     progrun.drive(run, eval_program, [(run.seed, i, scratch, tier) for i in range(n)])
     return run.finish(
